@@ -85,4 +85,27 @@ Section Model.
     let o2 := nk n * (wp' * ec + wi' * e + wd' * v) / den in
     {| npid := upd p (sum p) (sat o2 (outmin p) (outmax p)) v f e;
        nk := nk n; wp := wp'; wi := wi'; wd := wd'; nec := ec |}.
+
+  (* ------------------------------------------------------------ execution helpers for the correspondence run *)
+  (* mode 0 run, 1 pos, 2 inc; 8 + mode: a_pid_zero first *)
+  Definition pid_step (s : pid) (m : nat) (a f : T) : pid :=
+    let s := if Nat.leb 8 m then pid_zero s else s in
+    match (if Nat.leb 8 m then m - 8 else m)%nat with
+    | 0%nat => pid_run s a f | 1%nat => pid_pos s a f | _ => pid_inc s a f end.
+  Fixpoint pid_trace (s : pid) (steps : list (nat * (T * T))) : list T :=
+    match steps with
+    | [] => []
+    | (m, (a, f)) :: r => let s' := pid_step s m a f in
+                          [out s'; sum s'; var s'; fdb s'; err s'] ++ pid_trace s' r
+    end.
+  Definition neuro_step (n : neuro) (m : nat) (a f : T) : neuro :=
+    let n := if Nat.leb 8 m then neuro_zero n else n in
+    match (if Nat.leb 8 m then m - 8 else m)%nat with 0%nat => neuro_run n a f | _ => neuro_inc n a f end.
+  Fixpoint neuro_trace (n : neuro) (steps : list (nat * (T * T))) : list T :=
+    match steps with
+    | [] => []
+    | (m, (a, f)) :: r => let n' := neuro_step n m a f in
+                          [out (npid n'); wp n'; wi n'; wd n'; nec n'; var (npid n'); fdb (npid n'); err (npid n')]
+                            ++ neuro_trace n' r
+    end.
 End Model.
